@@ -47,10 +47,7 @@ def _eval(prog, fn, n, val, depth=0):
         ops, op = ([s.obj] if s.obj is not None else []) + s.args, s.r['op']
         if s.callee_qp in (SID + 'operator==', SID + 'operator!=') and depth < 3:
             other = prog.fn1(s.callee_qp)
-            rets = [x for x in other.all_nodes() if x.k == 'ReturnStmt']
-            if len(rets) != 1:
-                raise AnalysisBroken('operator body is not a single return')
-            return _eval(prog, other, rets[0].children[0], val, depth + 1)
+            return _fn_value(prog, other, val, depth + 1)
     if ops and len(ops) == 2:
         if any(x.strip(casts=True).k == 'CXXThisExpr' for x in ops):
             eq = not val['alias']          # this == &that  <=> same object
@@ -77,22 +74,37 @@ def _eval(prog, fn, n, val, depth=0):
     raise AnalysisBroken('unclassified atom in SessionID comparison: %s at %s' % (s.text(), s.loc))
 
 
+def _fn_value(prog, fn, val, depth=0):
+    """the bool a SessionID operator returns under valuation val: its single return expression, or (early returns) the return the CFG reaches when every
+    branch atom is decided by the same valuation"""
+    rets = [x for x in fn.all_nodes() if x.k == 'ReturnStmt' and x.children]
+    if len(rets) == 1:
+        return _eval(prog, fn, rets[0].children[0], val, depth)
+    if not rets:
+        raise AnalysisBroken(fn.q + ': no return')
+    reached = []
+
+    def visit(n, env):
+        if n.k == 'ReturnStmt':
+            reached.append(n)
+    q.follow(fn, lambda a: bool(_eval(prog, fn, a, val, depth)), visit=visit)
+    if not reached or not reached[-1].children:
+        raise AnalysisBroken(fn.q + ': evaluation does not reach a return')
+    return _eval(prog, fn, reached[-1].children[0], val, depth)
+
+
 def run(ctx):
     prog = Program(UNITS)
     ctx.units.update(UNITS)
     # ---------------- R23.1
     eq, ne = prog.fn1(SID + 'operator=='), prog.fn1(SID + 'operator!=')
     ctx.saw(eq), ctx.saw(ne)
-    def body(fn):
-        rets = [x for x in fn.all_nodes() if x.k == 'ReturnStmt']
-        ctx.need(len(rets) == 1, fn.q + ': expected a single return')
-        return rets[0].children[0]
     rows, bad = [], []
     for alias, snd, tgt in itertools.product((True, False), repeat=3):
         if not alias and not (snd and tgt):
             continue              # same object => equal fields
         v = {'alias': alias, 'sender': snd, 'target': tgt}
-        e, n = _eval(prog, eq, body(eq), v), _eval(prog, ne, body(ne), v)
+        e, n = _fn_value(prog, eq, v), _fn_value(prog, ne, v)
         rows.append((v, e, n))
         spec_eq = snd and tgt
         if e != spec_eq:
